@@ -56,6 +56,8 @@ func scenario(seed uint64, idx int, tier string, root string, fixed string, enc 
 			break
 		}
 	}
+	// everything after the world and the request is drawn from a stream of its own (see vh_c01)
+	rng = common.NewRng(seed*0x9e3779b97f4a7c15 + uint64(idx)*7919 + 12345)
 	if enc != nil {
 		*enc = sc.Encode()
 	}
